@@ -7,7 +7,7 @@ cfg=f"""SPECIFICATION Spec
 CONSTANTS
  KF_BackwardReset = TRUE
  KF_StoredInLag = FALSE
- KF_WriteBeforeJournal = TRUE
+ KF_WriteBeforeJournal = FALSE
  Depth = {depth}
  MaxN = 14
  Dump = FALSE
